@@ -348,6 +348,18 @@ func (h *Hist) block(codes map[string]int) {
 	} else {
 		h.tr.Line("end", len(eb.ValidatorUpdates) > 0, "end %d %s => %s %s", height, nanos(bt), updStr(eb.ValidatorUpdates, h), h.snap)
 	}
+	if !h.silent {
+		// lookups by chain (GetValidatorsByChain: prefix scan of 0x22) on the end-of-block state
+		ctx := ctxAt(n, height, bt)
+		for _, ch := range []string{"0001", "0021", "00"} {
+			as, _ := n.App.VerifNodesKeeper().GetValidatorsByChain(ctx, ch)
+			var xs []string
+			for _, a := range as {
+				xs = append(xs, hx(a))
+			}
+			h.tr.Line("lookup", len(xs) > 0, "lookup %d %s => %s", height, ch, joinOr(xs))
+		}
+	}
 	c := n.App.Commit()
 	batch = txindex.NewBatch(int64(len(txs)))
 	for i, t := range txs {
